@@ -48,7 +48,12 @@ def knobs(d):
     if d.get('native', '0') == '1':
         env['REF_VERIF_NATIVE_ALLTOALLV'] = '1'
     if 'chunk' in d:
-        env['REF_VERIF_REDUCE_BYTE_LIMIT'] = d['chunk']
+        # the limit is a verification knob, not a user option: it must hold at least one gather record
+        # ((3 + ldim + 1) doubles), otherwise the chunk of the gather loops is 0 and they never advance (DESIGN 8, item 6:
+        # unreachable with the default limit; a smaller value here would be a misuse by the generator - it was, at
+        # thorough seed 1 with ldim = 11 and chunk = 64)
+        floor = 8 * (int(d.get('ldim', '8')) + 4)
+        env['REF_VERIF_REDUCE_BYTE_LIMIT'] = str(max(int(d['chunk']), floor))
     return env
 
 
